@@ -204,7 +204,13 @@ Definition m2apply (b b' : base) (m0 : mst2) (te : Z * ev) : mst2 :=
         | None => m
         end
       else m
-  | EEnvMark code i op => if (code =? 1) then m2upd m i (fun x => x <| n_last_fault := t |> <| n_fault_ops ::= cons op |>) else m
+  | EEnvMark code i op =>
+      if (code =? 1) then
+        (* a call that hangs inside the watch loop itself (the synchronous periodic check) stalls the candidate until it
+           returns; a hung call of an acquisition round does not: the loop keeps starting new rounds *)
+        let blocks := match aget (b_pend b) op with Some p => (p_inner p =? sPeriodic) && (p_root p =? sBecomeFollower) | None => true end in
+        m2upd m i (fun x => let x1 := x <| n_last_fault := t |> in if blocks then x1 <| n_fault_ops ::= cons op |> else x1)
+      else m
   | ECrash i => m2upd m i (fun x => x <| n_crashed := true |>)
   | _ => m
   end.
